@@ -259,10 +259,11 @@ class ClassParser(BaseParser):
     def resolve_forward_refs(self, local_vars=None, ignore_errors: bool = True):
         # fields inherited from a base class keep the references that are pending in that class's parser:
         # they have to be resolved where they were declared, even when the subclass is used first
-        for base in self.obj.__bases__:
+        # (the whole MRO: a plain class between two data classes has no parser of its own)
+        for base in self.obj.__mro__[1:]:
             parser = base.__dict__.get("__parser__")
             if isinstance(parser, ClassParser):
-                parser.resolve_forward_refs(ignore_errors=ignore_errors)
+                BaseParser.resolve_forward_refs(parser, ignore_errors=ignore_errors)
         return super().resolve_forward_refs(local_vars=local_vars, ignore_errors=ignore_errors)
 
     def make_setter(self, field: ParserField, post_setattr=None):
